@@ -11,6 +11,7 @@ import (
 	"path"
 	"path/filepath"
 	"reflect"
+	"strings"
 
 	"github.com/akalin/gopar/rsec16"
 )
@@ -28,7 +29,29 @@ func (io defaultFileIO) ReadFile(path string) ([]byte, error) {
 }
 
 func (io defaultFileIO) FindWithPrefixAndSuffix(prefix, suffix string) ([]string, error) {
-	return filepath.Glob(prefix + "*" + suffix)
+	// Don't use filepath.Glob(prefix + "*" + suffix), since prefix
+	// may contain glob metacharacters (e.g. a PAR file named
+	// "a[1].par2"); list the directory and match literally.
+	dir, namePrefix := filepath.Split(prefix)
+	dirToRead := dir
+	if dirToRead == "" {
+		dirToRead = "."
+	}
+	infos, err := ioutil.ReadDir(dirToRead)
+	if os.IsNotExist(err) {
+		return nil, nil
+	} else if err != nil {
+		return nil, err
+	}
+
+	var matches []string
+	for _, info := range infos {
+		name := info.Name()
+		if len(name) >= len(namePrefix)+len(suffix) && strings.HasPrefix(name, namePrefix) && strings.HasSuffix(name, suffix) {
+			matches = append(matches, dir+name)
+		}
+	}
+	return matches, nil
 }
 
 func (io defaultFileIO) WriteFile(path string, data []byte) error {
